@@ -14,6 +14,9 @@ TERMINAL = ["a", "b", "c", "x", "y", "z"]
 INTERNAL = ["ax", "ay", "az", "bx", "by", "bz", "cx", "cy", "cz"]
 
 
+
+RULE_EXTRA = ('both mass modes per peptide; the four charge states requested in a peptide-dependent order.')
+
 def gen(rnd):
     n = rnd.randint(2, 15)
     A = anngen.empty(rnd.choice(RES) for _ in range(n))
